@@ -5,6 +5,7 @@ import (
 	"net"
 	"strconv"
 	"sync"
+	"time"
 
 	"github.com/go-stomp/stomp"
 	"github.com/go-stomp/stomp/frame"
@@ -31,6 +32,35 @@ type SimStomp struct {
 	// prefetch limit); the rest waits at the broker. Keeps a backlog out of go-stomp's own goroutines, whose
 	// native select between inbound frames and outbound requests would otherwise decide by runtime random.
 	Prefetch int
+	// SlowReadsNext, if set, makes the broker a slow reader of the NEXT connection made: before each read of
+	// that connection's socket it waits the next delay of this (tape-drawn, cyclic) list in simulated time. The
+	// client's writer then blocks inside a frame and what the application hands to the library queues up behind it.
+	SlowReadsNext []time.Duration
+}
+
+// gatedConn is the broker's end of a connection it reads slowly.
+type gatedConn struct {
+	net.Conn
+	b      *SimStomp
+	id     int
+	delays []time.Duration
+	n      int
+	tokens chan struct{}
+}
+
+func (g *gatedConn) Read(p []byte) (int, error) {
+	d := g.delays[g.n%len(g.delays)]
+	g.n++
+	if d > 0 {
+		g.b.s.AddEvent(fmt.Sprintf("stomp:c%02d:readgate", g.id), d, func() {
+			select {
+			case g.tokens <- struct{}{}:
+			default:
+			}
+		})
+		<-g.tokens
+	}
+	return g.Conn.Read(p)
 }
 
 type stompSub struct {
@@ -59,6 +89,10 @@ func (b *SimStomp) Connect() (*stomp.Conn, error) {
 	cli, srv := net.Pipe()
 	b.mu.Lock()
 	c := &stompConn{id: len(b.conns) + 1, b: b, srv: srv, wch: make(chan *frame.Frame, 4096)}
+	if len(b.SlowReadsNext) > 0 {
+		c.srv = &gatedConn{Conn: srv, b: b, id: c.id, delays: b.SlowReadsNext, tokens: make(chan struct{}, 1)}
+		b.SlowReadsNext = nil
+	}
 	b.conns = append(b.conns, c)
 	b.mu.Unlock()
 	go c.writer()
